@@ -1805,6 +1805,10 @@ func resolveIndex(v, index reflect.Value, indexAsStr string) (reflect.Value, err
 		if !indexVal.Type().ConvertibleTo(v.Type().Key()) {
 			return reflect.Value{}, fmt.Errorf("can't use %s (%s) as key for map of type %s", indexAsStr, indexVal.Type(), v.Type())
 		}
+		if !indexVal.Type().Comparable() {
+			// only possible for maps keyed by an interface type: hashing the value would panic
+			return reflect.Value{}, fmt.Errorf("can't use %s (%s) as key for map of type %s: the value is not comparable", indexAsStr, indexVal.Type(), v.Type())
+		}
 		indexVal = indexVal.Convert(v.Type().Key()) // noop in most cases, but not expensive
 		return indirectEface(v.MapIndex(indexVal)), nil
 	case reflect.Ptr:
